@@ -77,6 +77,53 @@ def ownStream (mk : Nat → Stream) (seed : Seed) (mult : Nat) (globS : Stream) 
   | .int n => mk (((mk n) 0 * mult) % 2 ^ 31)
   | .inst st cur => mk ((st cur * mult) % 2 ^ 31)
 
+/-! ### `check_random_state` with what the caller can observe
+
+`ownStream` above says which values the per-call generator produces.  The caller can observe two more things: whether
+the generator handed back *is* the object the caller owns (or numpy's global generator) — then every draw the method
+makes advances it — and where the caller's instance stands afterwards. -/
+
+/-- the seed the code derives: one `randint` of the copied generator times the multiplier, modulo `2^31` -/
+def derivedSeed (draw mult : Nat) : Nat := (draw * mult) % 2 ^ 31
+
+structure Crs where
+  /-- the values the returned generator will produce -/
+  stream : Stream
+  /-- the returned generator is the caller's instance / numpy's global generator itself -/
+  shared : Bool
+  /-- cursor of the caller's instance after the call (instances only) -/
+  callerCur : Nat
+
+/-- `check_random_state(random_state, seed_multiplier)`: without a multiplier this is scikit-learn's function (an
+instance is handed back as it is, `None` is the global generator, an integer seeds a new generator); with a
+multiplier an integer or instance is deep-copied first, so the caller's object is neither returned nor advanced. -/
+def checkRandomState (mk : Nat → Stream) (seed : Seed) (mult : Option Nat) (globS : Stream) (globCur : Nat) : Crs :=
+  match seed, mult with
+  | .none, _ => ⟨fun i => globS (globCur + i), true, 0⟩
+  | .int n, none => ⟨mk n, false, 0⟩
+  | .int n, some m => ⟨mk (derivedSeed ((mk n) 0) m), false, 0⟩
+  | .inst st cur, none => ⟨fun i => st (cur + i), true, cur⟩
+  | .inst st cur, some m => ⟨mk (derivedSeed (st cur) m), false, cur⟩
+
+/-- `n` consecutive identical pool queries on one strategy that holds the caller's instance `st`: what survives
+between the calls is the instance's cursor as `check_random_state` leaves it. -/
+def repeatQueries {β : Type} (F : List Nat → β) (mk : Nat → Stream) (st : Stream) (mult : Nat)
+    (argS globS : Stream) (globCur : Nat) (p : List Src) : Nat → Nat → List β
+  | 0, _ => []
+  | n + 1, cur =>
+    let crs := checkRandomState mk (.inst st cur) (some mult) globS globCur
+    F (run crs.stream argS globS p ⟨0, 0, globCur, []⟩).drawn ::
+      repeatQueries F mk st mult argS globS globCur p n crs.callerCur
+
+/-- the same loop for a validation step that hands the caller's instance itself to the method (what
+`check_random_state` does *without* a multiplier): the own draws advance the instance -/
+def repeatQueriesShared {β : Type} (F : List Nat → β) (st : Stream) (argS globS : Stream) (globCur : Nat)
+    (p : List Src) : Nat → Nat → List β
+  | 0, _ => []
+  | n + 1, cur =>
+    let c := run (fun i => st (cur + i)) argS globS p ⟨0, 0, globCur, []⟩
+    F c.drawn :: repeatQueriesShared F st argS globS globCur p n (cur + c.own)
+
 def Seed.given : Seed → Bool
   | .none => false
   | _ => true
